@@ -139,22 +139,59 @@ def one_case(src, idx, seed, tier, keep=False):
     sh0 = only_shadow(img, cons0)
     rc_n, probs_n, out_n = fsck(src, img, ["-fn"], "n1")
     before = open(img, "rb").read() if False else None
+    owners0 = None
+    try:
+        f0 = Fs(img)
+        owners0 = {i_: f0.inode(i_)["file_acl"] for i_ in f0.in_use_inodes() if (i_ == 2 or i_ >= f0.first_ino) and f0.inode(i_)["file_acl"]}
+    except Exception:
+        owners0 = None
     rc_y, probs_y, out_y = fsck(src, img, ["-fy"], "y")
     rc_n2, probs_n2, out_n2 = fsck(src, img, ["-fn"], "n2")
+    ea_cleared = False
+    if owners0 and probs_n2 and all(c_ == 0x01003C for c_, a_ in probs_n2):
+        # is every complaint of the second run about an attribute block that lost an owner because the first run cleared that inode
+        # (after having counted its reference)?
+        try:
+            f2 = Fs(img)
+            alive = set(f2.in_use_inodes())
+            lines_ = re.findall(r"attribute block (\d+) has reference count (\d+), should be (\d+)", fsck(src, img, ["-fn"], "n3")[2])
+            ok_ = bool(lines_)
+            for b_, r_, s_ in lines_:
+                b_, r_, s_ = int(b_), int(r_), int(s_)
+                gone = sum(1 for i_, a_ in owners0.items() if a_ == b_ and (i_ not in alive or f2.inode(i_)["file_acl"] != b_))
+                left = sum(1 for i_ in alive if (i_ == 2 or i_ >= f2.first_ino) and f2.inode(i_)["file_acl"] == b_)
+                if not (gone >= 1 and r_ - s_ == gone and s_ == left):
+                    ok_ = False
+            ea_cleared = ok_
+        except Exception:
+            ea_cleared = False
     cons2 = judge_consistency(img) if rc_n2 == 0 else "skipped"
     sh2 = only_shadow(img, cons2)
-    res = {"shadow0": sh0, "shadow2": sh2, "recipe": recipe, "cons0": cons0, "journal_crosslinked": jx, "rc_n": rc_n, "probs_n": probs_n, "rc_y": rc_y, "probs_y": probs_y,
+    res = {"ea_cleared": ea_cleared, "shadow0": sh0, "shadow2": sh2, "recipe": recipe, "cons0": cons0, "journal_crosslinked": jx, "rc_n": rc_n, "probs_n": probs_n, "rc_y": rc_y, "probs_y": probs_y,
            "rc_n2": rc_n2, "probs_n2": probs_n2, "cons2": cons2, "out_n": out_n[-400:], "out_n2": out_n2[-600:], "out_y": out_y[-300:]}
     if not keep:
         os.unlink(img)
     return res
 
 
+class BaseNotClean(Exception):
+    """e2fsck -fn found problems on a freshly built, undamaged base image"""
+    def __init__(self, name, opts, size, msg):
+        Exception.__init__(self, msg)
+        self.recipe = {"base": name, "mke2fs": opts, "size": size, "operators": [], "note": "undamaged base image as built by mke2fs + debugfs (+ the sharing step for ext4_sharedea)"}
+        self.msg = msg
+
+
 def campaign(src, seed, tier, n=None):
     os.makedirs(WORK, exist_ok=True)
     n = n or (140 if tier == "quick" else 6000)
     for i, (name, opts, size) in enumerate(corrupt.IMG_CONFIGS):
-        corrupt.build_image(src, WORK, name, opts, size, 1)
+        try:
+            corrupt.build_image(src, WORK, name, opts, size, 1)
+        except RuntimeError as ex:
+            if "not clean" in str(ex):
+                raise BaseNotClean(name, opts, size, str(ex))
+            raise
     with concurrent.futures.ThreadPoolExecutor(16) as ex:
         return list(ex.map(lambda i: one_case(src, i, seed, tier), range(n)))
 
@@ -206,7 +243,12 @@ def run(res, replay=None):
         rp = json.load(open(replay))
         cases = [one_case(src, rp["recipe"]["case_index"], seed, tier)]
     else:
-        cases = campaign(src, seed, tier)
+        try:
+            cases = campaign(src, seed, tier)
+        except BaseNotClean as ex:
+            res.violation("oracle", {"recipe": ex.recipe, "note": "e2fsck -fn reports problems on an undamaged filesystem: " + ex.msg[-400:]}, signature="c02:base:" + ex.recipe["base"])
+            res.add_obligation("campaign ran", False)
+            return
     bad, verdict_bad = [], []
     stats = {"inconsistent_inputs": 0, "consistent_inputs": 0, "skipped": 0, "rc_n": {}, "clauses": {}}
     lines = [verdict_model(mexe, "n", c["probs_n"]) for c in cases]
